@@ -25,6 +25,7 @@ func init() {
 			c.run("C12-N2", "GUARD-DOM: results that may be nil without an error are used only after a nil test", c12NilableResults)
 			c.run("C12-D3", "TYPESTATE: a pointer field a callee may clear is not dereferenced after the call without a new test", c12NilAfterCall)
 			c.run("C12-D", "CONTRADICTION: no dereference / interface call on the edge where the same value was just found nil", c12NilContradiction)
+			c.run("C12-Q", "shared with C05-R9: after malformed input ended a transfer the session stays usable — the dead transfer stops queuing output", stopLatchRule)
 			c.run("C12-S", "shared with C20-R1/R2: rendering clamps", func(c *Ctx) { c20R1(c); c20R2(c) })
 		})
 }
@@ -34,10 +35,10 @@ func init() {
 type taintState struct {
 	c      *Ctx
 	vals   map[ssa.Value]bool
-	fields map[string]bool    // "Type.field" (also for atomics stored in fields)
+	fields map[string]bool     // "Type.field" (also for atomics stored in fields)
 	cells  map[*ssa.Alloc]bool // local variable cells
-	chans  map[ssa.Value]bool // channel make sites whose elements are tainted
-	objs   map[ssa.Value]bool // pointers to objects decoded from the peer
+	chans  map[ssa.Value]bool  // channel make sites whose elements are tainted
+	objs   map[ssa.Value]bool  // pointers to objects decoded from the peer
 	why    map[ssa.Value]string
 	dirty  bool
 }
@@ -681,16 +682,16 @@ func c12Taint(c *Ctx) {
 
 // functions exempt from the constant-offset guard rule (local, trusted input; one reason each)
 var c12GuardExempt = map[string]string{
-	"forkToBackground":        "os.Args of the local process",
-	"resolveHomeDir":          "path from the local configuration, behind a HasPrefix test (disjunction of two prefixes)",
-	"detectDragFilesOnMacOS":  "local user's terminal input; slices follow a regexp match",
-	"nextCygPath":             "local user's terminal input; offsets follow the literal prefix just matched",
-	"nextLinuxPath":           "local user's terminal input; index derived from the scan position",
-	"nextMsysPath":            "local user's terminal input; index derived from the scan position",
-	"nextWinPath":             "local user's terminal input; index derived from the scan position",
-	"unixPathToWinPath":       "called on paths already matched by the cygwin/msys scanners",
+	"forkToBackground":         "os.Args of the local process",
+	"resolveHomeDir":           "path from the local configuration, behind a HasPrefix test (disjunction of two prefixes)",
+	"detectDragFilesOnMacOS":   "local user's terminal input; slices follow a regexp match",
+	"nextCygPath":              "local user's terminal input; offsets follow the literal prefix just matched",
+	"nextLinuxPath":            "local user's terminal input; index derived from the scan position",
+	"nextMsysPath":             "local user's terminal input; index derived from the scan position",
+	"nextWinPath":              "local user's terminal input; index derived from the scan position",
+	"unixPathToWinPath":        "called on paths already matched by the cygwin/msys scanners",
 	"detectDragFilesOnWindows": "local user's terminal input",
-	"detectDragFiles":         "local user's terminal input",
+	"detectDragFiles":          "local user's terminal input",
 }
 
 func c12Guards(c *Ctx) {
@@ -1022,7 +1023,10 @@ func c12BufLimit(c *Ctx) {
 	for _, ci := range callsIn(f, anyID) {
 		if fld, m, ok := atomicFieldOf(ci); ok && fld == "trzszTransfer.bufferSize" && m == "Store" {
 			if call, _ := callOf(ci.Common().Args[1]); call != nil && isMinFunc(call.Call.StaticCallee()) {
-				tied := factCmp(factsAt(ci.Block()), token.EQL, anyValue, func(v ssa.Value) bool { lc, _ := callOf(v); return lc != nil && isAtomicOnField(lc, "bufferSize", "Load") })
+				tied := factCmp(factsAt(ci.Block()), token.EQL, anyValue, func(v ssa.Value) bool {
+					lc, _ := callOf(v)
+					return lc != nil && isAtomicOnField(lc, "bufferSize", "Load")
+				})
 				c.check(tied, "bufferSize/doubling-needs-full-chunk", c.ipos(ci), "the size doubles only after a chunk of the current size was acknowledged", "the buffer size can grow without a full chunk having been acknowledged")
 			} else {
 				// the shrink path is clamped from below
